@@ -110,9 +110,9 @@ func allInstrs(fn *ssa.Function, deep bool, visit func(in *ssa.Function, ins ssa
 // fieldChain walks an address or value back through FieldAddr / Field /
 // IndexAddr / Slice / loads of field addresses and returns the chain of
 // fields from outermost to innermost together with the root value.
-// elem is true when the path passes through an element access (IndexAddr,
-// Index, Slice of a loaded field), i.e. the write targets storage reachable
-// through the field rather than the field itself.
+// elem is true when the innermost step (closest to the stored location) is an
+// element access (IndexAddr, Index, Slice of a loaded field), i.e. the write
+// targets storage reachable through the last field rather than the field itself.
 func fieldChain(v ssa.Value) (fields []*types.Var, root ssa.Value, elem bool) {
 	for depth := 0; depth < 64; depth++ {
 		switch x := v.(type) {
@@ -131,13 +131,19 @@ func fieldChain(v ssa.Value) (fields []*types.Var, root ssa.Value, elem bool) {
 			fields = append([]*types.Var{st.Field(x.Field).Origin()}, fields...)
 			v = x.X
 		case *ssa.IndexAddr:
-			elem = true
+			if len(fields) == 0 {
+				elem = true
+			}
 			v = x.X
 		case *ssa.Index:
-			elem = true
+			if len(fields) == 0 {
+				elem = true
+			}
 			v = x.X
 		case *ssa.Slice:
-			elem = true
+			if len(fields) == 0 {
+				elem = true
+			}
 			v = x.X
 		case *ssa.UnOp:
 			if x.Op != token.MUL {
@@ -318,6 +324,33 @@ func Origins(v ssa.Value, opts OriginOpts) []Origin {
 				out = append(out, Origin{Kind: OrgFreeVar, Val: a, Sliced: sliced})
 			case *ssa.IndexAddr:
 				walk(a.X, true)
+			case *ssa.Phi:
+				// load through a conditionally assigned pointer
+				// (`var p *T; if c { p = &x.f[i] }; … *p`): follow the
+				// non-nil incoming addresses
+				n := 0
+				for _, e := range a.Edges {
+					if isNilConst(e) {
+						continue
+					}
+					n++
+					switch ea := e.(type) {
+					case *ssa.IndexAddr:
+						walk(ea.X, true)
+					case *ssa.FieldAddr:
+						st := structOf(ea.X.Type())
+						var fv *types.Var
+						if st != nil {
+							fv = st.Field(ea.Field).Origin()
+						}
+						out = append(out, Origin{Kind: OrgField, Val: v, Field: fv, Sliced: sliced})
+					default:
+						out = append(out, Origin{Kind: OrgOther, Val: v, Sliced: sliced})
+					}
+				}
+				if n == 0 {
+					out = append(out, Origin{Kind: OrgConst, Val: v, Sliced: sliced})
+				}
 			default:
 				out = append(out, Origin{Kind: OrgOther, Val: v, Sliced: sliced})
 			}
